@@ -405,7 +405,7 @@ impl ToOrdinal {
             } else {
                 definitions.get_vec("NumbersOrdinalFractionalOnes")?
             };
-            let number_as_int: usize = number.parse().unwrap(); // already verified it is only digits
+            let number_as_int: usize = number.parse().unwrap_or(usize::MAX); // only digits, but they might not fit -- then it isn't irregular
             if number_as_int < words.len() {
                 // use the words associated with this irregular pattern.
                 return Some( words[number_as_int].clone() );
